@@ -58,6 +58,20 @@ pub fn universe(name: &str) -> Vec<Key> {
             let (a, b): (u32, u32) = (a.parse().unwrap(), b.parse().unwrap());
             (a..b).map(|i| cluster_key(p, i)).collect()
         }
+        // NB:<name> — the keys of <name> plus, for each, the keys differing from it in exactly one
+        // of the bits {0,1,5,6,7,11,12,13,18,127,254,255} (absent neighbours at every page boundary)
+        n if n.starts_with("NB:") => {
+            let base = universe(&n[3..]);
+            let mut v = base.clone();
+            for k in &base {
+                for d in [0usize, 1, 5, 6, 7, 11, 12, 13, 18, 127, 254, 255] {
+                    v.push(util::flip_bit(k, d));
+                }
+            }
+            v.sort();
+            v.dedup();
+            v
+        }
         // PAIRS:<k> — k pairs of keys; pair i shares the 6-bit prefix i (so each pair needs its
         // own depth-1 merkle page) and differs at bit 7
         n if n.starts_with("PAIRS:") => {
@@ -424,10 +438,15 @@ impl Exec {
         };
         self.trace.push(name.to_string());
         match name {
-            "c" | "cn" => {
+            "c" | "cn" | "cw" => {
                 let batch = decode_batch(&arg, &self.uni, tag);
                 let n = self.n.as_ref().unwrap();
-                let session = n.begin_session(SessionParams::default());
+                let session = n.begin_session(if name == "cw" { driver::witness_params() } else { SessionParams::default() });
+                if name == "cw" && self.cfg.warm_up {
+                    for (k, _) in &batch {
+                        session.warm_up(*k);
+                    }
+                }
                 let actuals = driver::Db::<B3>::actuals(&session, &batch, &self.model.kv)
                     .map_err(|m| viol("session-read", m))?;
                 let fin = session
@@ -447,7 +466,19 @@ impl Exec {
                         ),
                     ));
                 }
-                if name == "c" {
+                let mut fin = fin;
+                if name == "cw" {
+                    let w = fin.take_witness().ok_or_else(|| viol("witness-missing", format!("op {idx}: no witness produced")))?;
+                    check_witness(&w, &batch, &self.model.kv, fin.prev_root().into_inner(), fin.root().into_inner(), want)
+                        .map_err(|m| viol("witness", format!("op {idx}: witness of batch {}: {m}", batch_desc(&batch))))?;
+                    if w.path_proofs.len() > 1 {
+                        self.out.goals.push("witness:multi-path");
+                    }
+                    if w.operations.writes.len() > w.path_proofs.len() {
+                        self.out.goals.push("witness:shared-terminal");
+                    }
+                }
+                if name == "c" || name == "cw" {
                     fin.commit(n)
                         .map_err(|e| viol("commit-err", format!("op {idx}: commit failed: {e:#}")))?;
                 } else {
@@ -483,6 +514,7 @@ impl Exec {
                 self.overlays.retain(|_, _| false);
                 self.prepared.clear();
                 self.last_commit_overlay = None;
+                let occ_before = self.n.as_ref().map(|n| n.hash_table_utilization());
                 self.n = None;
                 let n = open_nomt::<B3>(&self.dir, &newcfg)
                     .map_err(|e| viol("reopen-err", format!("op {idx}: reopen failed: {e:#}")))?;
@@ -499,6 +531,15 @@ impl Exec {
                 self.model.retained = self.model.retained.min(self.model.log_len);
                 self.cfg = newcfg;
                 self.out.nontrivial = true;
+                if let Some(b) = occ_before {
+                    let a = self.n().hash_table_utilization();
+                    if a.occupied != b.occupied || a.capacity != b.capacity {
+                        return Err(viol(
+                            "reopen-occupancy",
+                            format!("op {idx}: hash-table utilisation changed across a reopen: {}/{} before, {}/{} after", b.occupied, b.capacity, a.occupied, a.capacity),
+                        ));
+                    }
+                }
                 self.audit(&format!("after op {idx} (reopen)"))?;
             }
             "rb" => {
@@ -803,6 +844,116 @@ impl Exec {
         }
         Ok(())
     }
+}
+
+fn batch_desc(b: &Batch) -> String {
+    b.iter()
+        .map(|(k, a)| {
+            format!(
+                "{}:{}",
+                kshort(k),
+                match a {
+                    Act::Read => "r".to_string(),
+                    Act::Write(None) => "d".to_string(),
+                    Act::Write(Some(v)) => format!("w{}", v.len()),
+                    Act::ReadThenWrite(None) => "rd".to_string(),
+                    Act::ReadThenWrite(Some(v)) => format!("rw{}", v.len()),
+                }
+            )
+        })
+        .collect::<Vec<_>>()
+        .join(",")
+}
+
+/// C06: the witness verifies against the previous root, attests exactly what the session read,
+/// covers every written key, and replaying the writes yields the new root.
+pub fn check_witness(
+    w: &nomt::Witness,
+    batch: &Batch,
+    view: &Kv,
+    prev_root: [u8; 32],
+    new_root: [u8; 32],
+    ref_new_root: [u8; 32],
+) -> Result<(), String> {
+    use bitvec::prelude::*;
+    use nomt::hasher::ValueHasher;
+    use nomt::proof::PathUpdate;
+    let ref_prev = refmodel::root::<B3>(view);
+    if prev_root != ref_prev {
+        return Err(format!("session prev_root {} != reference {}", hex(&prev_root[..6]), hex(&ref_prev[..6])));
+    }
+    let mut verified = vec![];
+    for (i, wp) in w.path_proofs.iter().enumerate() {
+        let vp = wp
+            .inner
+            .verify::<B3>(wp.path.path(), prev_root)
+            .map_err(|e| format!("witnessed path {i} does not verify against the previous root: {e:?}"))?;
+        verified.push(vp);
+    }
+    // reads
+    let mut read_keys: Vec<Key> = vec![];
+    for r in &w.operations.reads {
+        let vp = verified.get(r.path_index).ok_or_else(|| format!("read of {} has path_index {} out of range", kshort(&r.key), r.path_index))?;
+        let truth = view.get(&r.key).map(|v| <B3 as ValueHasher>::hash_value(v));
+        if r.value != truth {
+            return Err(format!("witnessed read of {} attests {:?} but the session observed {:?}", kshort(&r.key), r.value.map(|h| hex(&h[..4])), truth.map(|h| hex(&h[..4]))));
+        }
+        let ok = match r.value {
+            Some(vh) => vp.confirm_value(&nomt::trie::LeafData { key_path: r.key, value_hash: vh }),
+            None => vp.confirm_nonexistence(&r.key),
+        };
+        if !matches!(ok, Ok(true)) {
+            return Err(format!("witnessed read of {} is not confirmed by its path proof: {ok:?}", kshort(&r.key)));
+        }
+        read_keys.push(r.key);
+    }
+    let want_reads: Vec<Key> = batch.iter().filter(|(_, a)| matches!(a, Act::Read | Act::ReadThenWrite(_))).map(|(k, _)| *k).collect();
+    for k in &want_reads {
+        if !read_keys.contains(k) {
+            return Err(format!("read key {} is not in the witness", kshort(k)));
+        }
+    }
+    // writes
+    let want_writes = writes_of(batch);
+    let mut got: Vec<(Key, Option<[u8; 32]>, usize)> = w.operations.writes.iter().map(|x| (x.key, x.value, x.path_index)).collect();
+    got.sort();
+    for (k, v) in &want_writes {
+        let h = v.as_ref().map(|v| <B3 as ValueHasher>::hash_value(v));
+        match got.iter().find(|(gk, _, _)| gk == k) {
+            None => return Err(format!("written key {} is not covered by the witness", kshort(k))),
+            Some((_, gv, pi)) => {
+                if *gv != h {
+                    return Err(format!("witnessed write of {} carries a different value hash", kshort(k)));
+                }
+                let vp = verified.get(*pi).ok_or_else(|| format!("write of {} has path_index {pi} out of range", kshort(k)))?;
+                if !k.view_bits::<Msb0>().starts_with(vp.path()) {
+                    return Err(format!("witnessed write of {} is not in scope of its path {pi}", kshort(k)));
+                }
+            }
+        }
+    }
+    if got.len() != want_writes.len() {
+        return Err(format!("witness has {} writes, the batch {}", got.len(), want_writes.len()));
+    }
+    // replay
+    let mut updates: Vec<PathUpdate> = vec![];
+    let mut order: Vec<usize> = (0..verified.len()).collect();
+    order.sort_by(|a, b| verified[*a].path().cmp(verified[*b].path()));
+    for pi in order {
+        let mut ops: Vec<(Key, Option<[u8; 32]>)> = got.iter().filter(|(_, _, p)| *p == pi).map(|(k, v, _)| (*k, *v)).collect();
+        ops.sort();
+        if !ops.is_empty() {
+            updates.push(PathUpdate { inner: verified[pi].clone(), ops });
+        }
+    }
+    let replayed = nomt::proof::verify_update::<B3>(prev_root, &updates).map_err(|e| format!("verify_update over the witnessed writes failed: {e:?}"))?;
+    if replayed != new_root {
+        return Err(format!("replaying the witnessed writes gives {} but the store reports {}", hex(&replayed[..6]), hex(&new_root[..6])));
+    }
+    if new_root != ref_new_root {
+        return Err(format!("new root {} != reference {}", hex(&new_root[..6]), hex(&ref_new_root[..6])));
+    }
+    Ok(())
 }
 
 impl HistX {
